@@ -6,6 +6,7 @@ package chainx
 import (
 	"crypto/sha256"
 	"encoding/hex"
+	"encoding/json"
 	"fmt"
 	"os"
 	"path/filepath"
@@ -191,20 +192,57 @@ func (c *Chain) Compile(name string) *neotest.Contract {
 		return c.LoadEmbedded(name)
 	}
 	p := filepath.Join(Repo(), "contracts", name)
-	return neotest.CompileFile(c.T, c.Cmt.ScriptHash(), p, filepath.Join(p, "config.yml"))
+	return c.rehash(neotest.CompileFile(c.T, c.Cmt.ScriptHash(), p, filepath.Join(p, "config.yml")))
+}
+
+// rehash: neotest caches compiled contracts per path including the hash computed for the FIRST sender; chains with
+// different committees deploy from different senders, so the hash is recomputed for this chain's deployer.
+func (c *Chain) rehash(ct *neotest.Contract) *neotest.Contract {
+	cp := *ct
+	cp.Hash = state.CreateContractHash(c.Cmt.ScriptHash(), ct.NEF.Checksum, ct.Manifest.Name)
+	return &cp
 }
 
 // CompileDir compiles an arbitrary contract directory (probe contracts).
 func (c *Chain) CompileDir(dir string) *neotest.Contract {
-	return neotest.CompileFile(c.T, c.Cmt.ScriptHash(), dir, filepath.Join(dir, "config.yml"))
+	return c.rehash(neotest.CompileFile(c.T, c.Cmt.ScriptHash(), dir, filepath.Join(dir, "config.yml")))
 }
 
 // Deploy deploys a compiled contract signed by the committee majority; the deployment must HALT.
 func (c *Chain) Deploy(ct *neotest.Contract, data any) util.Uint160 {
-	tx := c.E.NewDeployTxBy(c.T, c.Cmt, ct, data)
+	tx := c.NewDeployTx(ct, data)
 	c.AddBlock(tx)
 	c.E.CheckHalt(c.T, tx.Hash())
 	return ct.Hash
+}
+
+// NewDeployTx builds a deployment transaction sent by the committee-majority account (which fixes the contract
+// hash) and additionally witnessed by the Alphabet account (some _deploy methods check the Alphabet witness; on a
+// single-node chain both accounts coincide, as in the repository's own tests).
+func (c *Chain) NewDeployTx(ct *neotest.Contract, data any) *transaction.Transaction {
+	rawManifest, err := json.Marshal(ct.Manifest)
+	require.NoError(c.T, err)
+	neb, err := ct.NEF.Bytes()
+	require.NoError(c.T, err)
+	mgmt := c.E.NativeHash(c.T, nativenames.Management)
+	script, err := smartcontract.CreateCallScript(mgmt, "deploy", neb, rawManifest, data)
+	require.NoError(c.T, err)
+	tx := transaction.New(script, 200_0000_0000)
+	c.nonce++
+	tx.Nonce = c.nonce
+	tx.ValidUntilBlock = c.BC.BlockHeight() + 1
+	signers := []neotest.Signer{c.Cmt}
+	if c.Alpha.ScriptHash() != c.Cmt.ScriptHash() {
+		signers = append(signers, c.Alpha)
+	}
+	for _, s := range signers {
+		tx.Signers = append(tx.Signers, transaction.Signer{Account: s.ScriptHash(), Scopes: transaction.Global})
+	}
+	neotest.AddNetworkFee(c.T, c.BC, tx, signers...)
+	for _, s := range signers {
+		require.NoError(c.T, s.SignTx(c.BC.GetConfig().Magic, tx))
+	}
+	return tx
 }
 
 // DeployNNS deploys the NNS contract with the "neofs" TLD (it gets contract id 1 if deployed first).
